@@ -51,13 +51,15 @@ type KUParams struct {
 }
 
 type KUOp struct {
-	K      string `json:"k"` // send | deliver | dup | drop | tick | confirm | evil-double | evil-ack | nop
+	K      string `json:"k"` // send | deliver | dup | drop | tick | confirm | forge | evil-double | evil-ack | nop
 	Who    int    `json:"who,omitempty"`
 	Idx    int    `json:"idx,omitempty"`
 	PayLen int    `json:"paylen,omitempty"`
 	Ack    bool   `json:"ack,omitempty"`
 	Skip   bool   `json:"skip,omitempty"`
 	DtUs   int64  `json:"dt,omitempty"`
+	Mode   string `json:"mode,omitempty"` // forge: flip | far | trunc
+	Pos    int    `json:"pos,omitempty"`
 }
 
 type kuPkt struct {
@@ -114,8 +116,8 @@ type kuMachine struct {
 	closer func()
 
 	// bookkeeping
-	nLocal, nRemote, nOldDelivered, nOldAfterDrop, nDup, nReorder, nEvilDouble, nEvilAck, nStale int
-	sig                                                                                            []byte
+	nLocal, nRemote, nOldDelivered, nOldAfterDrop, nDup, nReorder, nEvilDouble, nEvilAck, nStale, nForged int
+	sig                                                                                                   []byte
 }
 
 func genKUParams(t *rapid.T) KUParams {
@@ -224,7 +226,7 @@ func (m *kuMachine) Gen(t *rapid.T) KUOp {
 	if m.dead {
 		return KUOp{K: "nop"}
 	}
-	kinds := []string{"send", "send", "send", "send", "send", "deliver", "deliver", "deliver", "deliver", "dup", "drop", "tick", "confirm", "evil-double", "evil-ack"}
+	kinds := []string{"send", "send", "send", "send", "send", "deliver", "deliver", "deliver", "deliver", "dup", "drop", "tick", "confirm", "forge", "evil-double", "evil-ack"}
 	k := rapid.SampledFrom(kinds).Draw(t, "kind")
 	// the window for a too-early second update by the peer is short (until the endpoint's next send): take it sometimes
 	if (m.evilDoubleOK(0) || m.evilDoubleOK(1)) && k != "evil-double" && rapid.IntRange(0, 7).Draw(t, "evil-double-now") == 0 {
@@ -250,6 +252,15 @@ func (m *kuMachine) Gen(t *rapid.T) KUOp {
 			op.Idx = 0
 		} else {
 			op.Idx = rapid.IntRange(0, len(m.flight)-1).Draw(t, "idx")
+		}
+	case "forge":
+		op.Who = rapid.IntRange(0, 1).Draw(t, "who")
+		op.Mode = rapid.SampledFrom([]string{"flip", "flip", "flip", "far", "trunc"}).Draw(t, "mode")
+		op.Pos = rapid.IntRange(0, 1<<16).Draw(t, "pos")
+		if len(m.flight) > 0 {
+			op.Idx = rapid.IntRange(0, len(m.flight)-1).Draw(t, "idx")
+		} else if op.Mode != "far" {
+			op.Mode = "far"
 		}
 	case "tick":
 		pto := m.pto3(m.e[0]) / 3
@@ -346,6 +357,8 @@ func (m *kuMachine) Apply(op KUOp) *vf.Verdict {
 			m.nReorder++
 		}
 		return m.deliver(pkt)
+	case "forge":
+		return m.forge(op)
 	case "evil-double":
 		return m.evilDouble(op.Who & 1)
 	case "evil-ack":
@@ -560,6 +573,49 @@ func (m *kuMachine) craft(k *refcrypto.Keys, gen int, pn int64, payload []byte) 
 	return refcrypto.Protect(k, hdr, 1+len(m.cid), pnLen, uint64(pn), payload)
 }
 
+// forge: an off-path attacker modifies a packet in flight (one bit anywhere, including the connection ID and the
+// header-protected bits), truncates it, or injects a packet with a far-away packet number under unknown keys. The
+// receiver must drop it without any fatal error; the model state does not change, so every later genuine packet is
+// still expected to open (in particular the packet number decoding window must not move).
+func (m *kuMachine) forge(op KUOp) *vf.Verdict {
+	var data []byte
+	who := op.Who & 1
+	switch {
+	case op.Mode == "far" || len(m.flight) == 0:
+		r := m.e[who]
+		bogus := refcrypto.DeriveKeys(m.p.Suite, refVersion(m.p.V), expand(m.p.Seed+uint64(op.Pos)+77, refcrypto.HashLen(m.p.Suite)))
+		pn := uint64(max(r.highestRcvd, 0)) + 1<<30 + uint64(op.Pos)
+		first := byte(0x43)
+		if op.Pos%2 == 1 {
+			first |= 0x04
+		}
+		hdr := append([]byte{first}, m.cid...)
+		hdr = append(hdr, byte(pn>>24), byte(pn>>16), byte(pn>>8), byte(pn))
+		data = refcrypto.Protect(bogus, hdr, 1+len(m.cid), 4, pn, expand(uint64(op.Pos), 20))
+	default:
+		pkt := m.flight[op.Idx%len(m.flight)]
+		who = 1 - pkt.from
+		data = append([]byte{}, pkt.data...)
+		if op.Mode == "trunc" {
+			data = data[:op.Pos%len(data)]
+		} else {
+			bit := op.Pos % (8 * len(data))
+			data[bit/8] ^= 1 << uint(bit%8)
+		}
+	}
+	r := m.e[who]
+	m.nForged++
+	_, _, _, pl, err := r.unp.UnpackShortHeader(monotime.Time(m.now*1000), data)
+	if err == nil {
+		return vf.Bad("C05/tamper/accepted-modified-packet", "endpoint %d accepted a forged packet (%s, pos %d): payload %s", who, op.Mode, op.Pos, hx(pl))
+	}
+	var te *qerr.TransportError
+	if errors.As(err, &te) {
+		return vf.Bad("C05/tamper/fatal-error-on-forgery", "endpoint %d: forged packet (%s, pos %d) answered with %v; it must only be dropped", who, op.Mode, op.Pos, err)
+	}
+	return nil
+}
+
 // evilDouble: the peer updates again although endpoint who has not sent anything in its current phase, so the peer
 // cannot have received an acknowledgment for a packet of that phase (RFC 9001 6.1, 6.2).
 func (m *kuMachine) evilDouble(who int) *vf.Verdict {
@@ -627,6 +683,7 @@ func (m *kuMachine) Finish(u *vf.Unit) *vf.Verdict {
 	cnt("stale-phase-rejected", m.nStale)
 	cnt("dup", m.nDup)
 	cnt("reorder", m.nReorder)
+	cnt("forged", m.nForged)
 	cnt("evil-double-update", m.nEvilDouble)
 	cnt("evil-ack-old-phase", m.nEvilAck)
 	if m.e[0].updates+m.e[1].updates >= 4 {
